@@ -168,6 +168,8 @@ func corsBuild(cfg corsCfg, withFilter bool) corsWorld {
 	ws.Route(ws.POST("/u1").To(hnd("POST u1")))
 	ws.Route(ws.Method("OPTIONS").Path("/u1").To(hnd("OPTIONS u1")))
 	ws.Route(ws.DELETE("/u2").To(hnd("DELETE u2")))
+	ws.Route(ws.GET("/d/{id:(x)|[0-9]+}").To(hnd("GET d")))
+	ws.Route(ws.POST("/d/{id:(x)|[0-9]+}/c").To(hnd("POST d/c")))
 	c.Add(ws)
 	return w
 }
